@@ -245,9 +245,11 @@ def execute(s, live=None):
     snap = None
     try:
         ts = obs['time']
-        tq = Time((ts[0] + ts[1]) / 2.0, 'sec')
-        df = m.pt.snapshot(target_time=tq, print_data=False)
-        snap = {(r, c): float(df.loc[r, c]) for r in df.index for c in df.columns}
+        snap = {}
+        # inside the first and inside the last recorded interval (histories may change unit along the way)
+        for tag, tmid in (('first', (ts[0] + ts[1]) / 2.0), ('last', (ts[-2] + ts[-1]) / 2.0)):
+            df = m.pt.snapshot(target_time=Time(tmid, 'sec'), print_data=False)
+            snap.update({(tag + ':' + str(r), c): float(df.loc[r, c]) for r in df.index for c in df.columns})
     except Exception as ex:
         return ('snapshot', type(ex).__name__, str(ex)[:120])
     return ('ok', obs, snap)
